@@ -89,6 +89,11 @@ def cases(tier, seed):
                     for phase in PHASES:
                         out.append({"search": "crash", "functional": fname, "kind": kind, "debug": debug,
                                     "phase": phase, "rg": rg, "extra": 1})
+                        if debug == DEBUGS[0] and rg == "abp":
+                            # the same crash points with a fault that does not derive from Exception
+                            # (KeyboardInterrupt-like): clean-up written as `except Exception` does not run
+                            out.append({"search": "crash", "functional": fname, "kind": kind, "debug": debug,
+                                        "phase": phase, "rg": rg, "extra": 1, "fault": "base"})
     # ---- (c) every alias partition of up to 5 (quick) / 6 (thorough) declared names
     for k in range(1, (6 if quick else 7)):
         for kindo in ("em", "lo"):
@@ -397,6 +402,7 @@ def _execute(cfg, arm):
     xitorch.set_debug_mode(False)
     probe = Probe()
     probe.arm = arm
+    probe.base = cfg.get("fault") == "base"
     world = World(cfg, probe)
     dbg = cfg["debug"]
     fails = []
